@@ -1131,9 +1131,10 @@ def _manual_memo(repo: Repo, f: FuncInfo) -> Optional[Tuple[str, ast.AST]]:
     return None
 
 
-def rule_cache(repo: Repo, rid: str = "C19.cache", module_filter=None, manual: bool = False) -> RuleResult:
+def rule_cache(repo: Repo, rid: str = "C19.cache", module_filter=None, manual: bool = False, objects: bool = False) -> RuleResult:
     """memoisation decorators keep hidden process-wide state; on a function that reads a file (or takes mutable objects) the
-    cached answer goes stale.  manual=True: hand-written memoisation through a module- / class-level dict is reported as well"""
+    cached answer goes stale.  manual=True: hand-written memoisation through a module- / class-level dict is reported as well (objects=True:
+    also when the function does not read a file but is a method / takes library objects: the key cannot identify a mutable object)"""
     r = RuleResult(rid, "no memoising decorator (lru_cache / cache) on a function that reads external state or receives mutable objects",
                    "repeating a call returns the result for the CURRENT log / domain, not a remembered one")
     n = 0
@@ -1148,6 +1149,11 @@ def rule_cache(repo: Repo, rid: str = "C19.cache", module_filter=None, manual: b
                 r.site(L.site(f, None, "hand-written memoisation"))
                 r.fail(Finding(rid, f, "cached-stale", f"{f.qn} remembers its result in the shared dict {mm[0]} although it depends on a file that may be "
                                f"rewritten: a later call for the same key returns the old result", node=mm[1]))
+            elif mm is not None and objects and (f.is_method or any(
+                    (repo.ann_to_type(f.annotations.get(a), f.mod.name) or ("?",))[0] in ("cls", "dict", "list", "set", "union") for a in f.params if a != f.self_name)):
+                r.site(L.site(f, None, "hand-written memoisation"))
+                r.fail(Finding(rid, f, "cached-stale", f"{f.qn} remembers its result in the shared dict {mm[0]}, which outlives the objects it was computed from: the "
+                               f"answer for another domain / problem with equal names is the remembered one", node=mm[1]))
         if not caching:
             continue
         r.site(L.site(f, None, "cached function"))
